@@ -15,6 +15,17 @@ TS_CODE = {'qtilde': 1, 'q': 2, 'q0': 3}
 TS_COQ = {'qtilde': 'TQtilde', 'q': 'TQ', 'q0': 'TQ0'}
 
 
+def close(a, b, rtol=1e-9, atol=1e-12):
+    """core.close, but a non-finite implementation value is a plain mismatch (never a harness crash)."""
+    if a is None or b is None or b != b or b in (float('inf'), float('-inf')):
+        return False
+    return core.close(a, b, rtol, atol)
+
+
+def finite(xs):
+    return all(isinstance(x, (int, float)) and x == x and abs(x) != float('inf') for x in xs)
+
+
 def set_backend(b):
     import pyhf
     pyhf.set_backend(b)
@@ -469,7 +480,7 @@ def run(ctx):
                 stats['pvalue_evals'] += 1
                 stats['ties'] += any(core.frac(s) == core.frac(v) for s in c['vec'])
                 stats['out_of_range'] += (v < min(c['vec']) or v > max(c['vec']))
-                if not core.close(want, got, 1e-12, 0):
+                if not close(want, got, 1e-12, 0):
                     tiecase = any(core.frac(s) == core.frac(v) for s in c['vec'])
                     report('pvalue-not-tail-fraction:%s%s' % (b, ':tie' if tiecase else ''),
                            'pvalue(%r) of %d samples on %s is %r, the fraction of samples >= value is %s' % (v, len(c['vec']), b, got, want),
@@ -477,15 +488,15 @@ def run(ctx):
             for ns, q, got in zip(NSIGMAS, im['q100'], im['expected']):
                 want = ref_percentile(c['vec'], q)
                 stats['expected_value_evals'] += 1
-                if not core.close(want, got, 1e-9, 1e-12):
+                if not close(want, got, 1e-9, 1e-12):
                     report('expected-value-not-linear-percentile:' + b, 'expected_value(%r) on %s is %r, the linear percentile at %r%% is %r' % (ns, b, got, q, float(want)),
                            dict(rep, nsigma=ns, q100=q, impl=got, expected=float(want), theorem='correspondence expected_value'))
             mo = model_out.get(b)
             if mo is not None:
                 mp = core.to_frac(mo[i][0])
                 me = [core.to_frac(x)[0] if x else None for x in mo[i][1]]
-                dis = [k for k, (a, g) in enumerate(zip(mp, im['pvalues'])) if not core.close(a, g, 1e-12, 0)]
-                dis += [100 + k for k, (a, g) in enumerate(zip(me, im['expected'])) if a is None or not core.close(a, g, 1e-9, 1e-12)]
+                dis = [k for k, (a, g) in enumerate(zip(mp, im['pvalues'])) if not close(a, g, 1e-12, 0)]
+                dis += [100 + k for k, (a, g) in enumerate(zip(me, im['expected'])) if a is None or not close(a, g, 1e-9, 1e-12)]
                 if dis:
                     ndis += 1
                     tie = tie or ('Coq model of EmpiricalDistribution and implementation (%s) disagree on %r (indices %r)' % (b, c, dis[:4]))
@@ -500,7 +511,12 @@ def run(ctx):
             n = rng.choice([1, 2, 5, 8, 13])
             # the tested value differs from the background hypothesis' POI so that the two pdfs are distinguishable
             poi = rng.choice([0.25, 0.5, 1.0, 1.5, 2.0, 3.75] if ts != 'q0' else [0.0, 0.25, 0.5, 1.5, 2.0])
-            dcases.append(dict(test_stat=ts, ntoys=n, poi=poi, tobs=[None] + [rng.randrange(0, 14) / 4.0 + poi * TS_CODE[ts] * rng.choice([0, 1]) for _ in range(3)]))
+            c0 = dict(test_stat=ts, ntoys=n, poi=poi, tobs=[])
+            r0 = ref_dataflow(c0)
+            pool = sorted(set(r0['sb'] + r0['b']))
+            # observed statistics inside the range of the toy statistics (ties with toys included), one outside
+            c0['tobs'] = [None] + [float(rng.choice(pool)) for _ in range(3)] + [float(pool[0]) - 0.25]
+            dcases.append(c0)
     dex = ['flow %s %d %s %s' % (TS_COQ[c['test_stat']], c['ntoys'], core.q(c['poi']),
                                  core.clist(c['tobs'], lambda t: 'None' if t is None else '(Some %s)' % core.q(t))) for c in dcases]
     try:
@@ -526,6 +542,9 @@ def run(ctx):
             if len(lg['draws']) != 2 or any(d[2] != [c['ntoys']] for d in lg['draws']) or len(lg['pdf_pars']) != 2:
                 report('toy-draws:' + c['test_stat'], 'expected one draw of %d toys from each of the two pdfs, saw draws %r from pdfs at %r' % (c['ntoys'], lg['draws'], lg['pdf_pars']),
                        dict(rep, impl=dict(draws=lg['draws'], pdf_pars=lg['pdf_pars']), theorem='C14_toy_hypotheses'))
+            if not finite(im['sb'] + im['b'] + [im['teststat']]):
+                report('toy-statistic-not-finite:' + b, 'toy statistics contain non-finite values', dict(rep, impl=dict(sb=im['sb'], b=im['b'])))
+                continue
             if [core.frac(x) for x in im['sb']] != ref['sb'] or [core.frac(x) for x in im['b']] != ref['b']:
                 which = 'signal' if [core.frac(x) for x in im['sb']] != ref['sb'] else 'background'
                 report('toy-hypotheses:%s:%s' % (c['test_stat'], which),
@@ -534,7 +553,7 @@ def run(ctx):
                        dict(rep, impl=dict(sb=im['sb'], b=im['b'], draws=lg['draws'], pdf_pars=lg['pdf_pars']),
                             expected=dict(sb=[float(x) for x in ref['sb']], b=[float(x) for x in ref['b']]), theorem='C14_toy_hypotheses'))
             for tv, got, want in zip(c['tobs'], im['pvalues'], ref['pvalues']):
-                okp = core.close(want[0], got[0], 1e-12, 0) and core.close(want[1], got[1], 1e-12, 0) and (want[2] is None or core.close(want[2], got[2], 1e-12, 0))
+                okp = close(want[0], got[0], 1e-12, 0) and close(want[1], got[1], 1e-12, 0) and (want[2] is None or close(want[2], got[2], 1e-12, 0))
                 if not okp:
                     report('toy-pvalues:' + b, 'ToyCalculator.pvalues(%r) = %r, tail fractions are %r' % (tv, got, [str(w) for w in want]),
                            dict(rep, impl=got, expected=[str(w) for w in want], theorem='C14_toy_pvalues_are_tail_fractions'))
@@ -544,7 +563,7 @@ def run(ctx):
                         or F(*mt) != core.frac(im['teststat']):
                     tie = tie or ('Coq model of ToyCalculator.distributions and implementation (%s) disagree on %r' % (b, c))
                 for (x, y, z), got, want in zip(mp, im['pvalues'], ref['pvalues']):
-                    if not (core.close(F(*x), got[0], 1e-12, 0) and core.close(F(*y), got[1], 1e-12, 0) and (want[2] is None or core.close(F(*z), got[2], 1e-12, 0))):
+                    if not (close(F(*x), got[0], 1e-12, 0) and close(F(*y), got[1], 1e-12, 0) and (want[2] is None or close(F(*z), got[2], 1e-12, 0))):
                         tie = tie or ('Coq model of ToyCalculator.pvalues and implementation (%s) disagree on %r' % (b, c))
             if c['ntoys'] >= 2:
                 sigs.add(json.dumps(['flow', b, c]))
@@ -563,8 +582,8 @@ def run(ctx):
                     got = hy['hypotest']
                     # documented layout (C08): q0 returns CLs+b and [CLb]; otherwise CLs and [CLs+b, CLb]
                     tails = [w[1]] if c['test_stat'] == 'q0' else [w[0], w[1]]
-                    tail_ok = len(got[1]) == len(tails) and all(core.close(a, g, 1e-12, 0) for a, g in zip(tails, got[1]))
-                    if not tail_ok or (first is not None and not core.close(first, got[0], 1e-12, 0)):
+                    tail_ok = len(got[1]) == len(tails) and all(close(a, g, 1e-12, 0) for a, g in zip(tails, got[1]))
+                    if not tail_ok or (first is not None and not close(first, got[0], 1e-12, 0)):
                         report('toy-hypotest:%s:%s' % (b, c['test_stat']), 'hypotest(toybased, return_tail_probs) = %r, tail fractions of the toy distributions are %r'
                                % (got, [str(x) for x in w]), dict(rep, via='hypotest', impl=got, expected=[str(x) for x in w], theorem='C14_toy_hypotheses'))
     ctx.log('dataflow done')
